@@ -604,6 +604,16 @@ func (r *runner) step(i int, o *sop) (e ev, stop bool) {
 	default:
 		e["res"] = "unknown-op"
 	}
+	// cheap scalar state of the bucket after the operation (compared with the specification's state: drift)
+	if r.bkt != nil && r.bkt.datas != nil && e["a"] != "Close" {
+		ds := r.bkt.datas
+		sizes, nbuf := []int{}, []int{}
+		for c := 0; c <= ds.newHead && c < len(ds.chunks); c++ {
+			sizes = append(sizes, int(ds.chunks[c].size)/256)
+			nbuf = append(nbuf, len(ds.chunks[c].wbuf))
+		}
+		e["st"] = ev{"head": ds.newHead, "size": sizes, "nbuf": nbuf, "nextgc": r.bkt.NextGCChunk}
+	}
 	// a rotation spawned a flusher goroutine: by default let it run to completion now
 	if r.bkt != nil && r.bkt.datas != nil && headBefore >= 0 && r.bkt.datas.newHead > headBefore {
 		rot := []int{}
